@@ -200,11 +200,25 @@ class _Run:
 
             inner.keypress = rec_keypress
         last = None  # (size, p, top_height) of the previous render at constant size
+        prev_frame = None  # the previous checked frame, kept across position changes (clause 1b)
+        since_render: list = []  # operations since that frame
+        orig_me = getattr(inner, "mouse_event", None)
+        self.inner_mouse_handled = None
+        if orig_me is not None:
+
+            def rec_mouse(sz, event, button, col, row, focus_):
+                rv = orig_me(sz, event, button, col, row, focus_)
+                self.inner_mouse_handled = bool(rv)
+                return rv
+
+            inner.mouse_event = rec_mouse
         pending_actions = 0
         handled_key_since_render = None
         self.log.add("cfg", [repr(cfg["inner"])[:200], list(size), repr(cfg.get("bar"))])
         for i, op in enumerate(scen["ops"]):
             k = op["op"]
+            if k != "render":
+                since_render.append(op)
             try:
                 if k == "key":
                     key = KEYS[op["k"] % len(KEYS)]
@@ -222,7 +236,10 @@ class _Run:
                         handled_key_since_render = None  # a scroll action is now pending as well
                 elif k == "wheel":
                     btn = 4 if op.get("up") else 5
+                    self.inner_mouse_handled = None
                     rv = top.mouse_event(size, "mouse press", btn, op.get("x", 0) % size[0], op.get("y", 0) % size[1], focus)
+                    op = dict(op, _inner_handled=self.inner_mouse_handled)
+                    since_render[-1] = op
                     self.log.add("wheel", [btn, repr(rv)])
                     pending_actions += 1
                     handled_key_since_render = None
@@ -255,6 +272,12 @@ class _Run:
                     handled_key_since_render = None
                     if res.violations:
                         break
+                    if last is not None:
+                        self.check_position_change(i, prev_frame, since_render, last, focus)
+                        if res.violations:
+                            break
+                    prev_frame = (*last, focus) if last is not None else None
+                    since_render = []
             except Exception as e:  # noqa: BLE001
                 if core.raised_in_harness(e):
                     raise core.HarnessError(f"harness exception in op {op}: {core.format_exc(e)}") from e
@@ -262,6 +285,35 @@ class _Run:
                 break
         urwid.CanvasCache.clear()
         return self.log.digest()
+
+    def check_position_change(self, i, prev, since, now, focus) -> None:
+        """Clause 1b - explicit position changes are honoured.  Between two checked frames of the same size, focus
+        flag and content height, exactly one operation happened:
+        set_scrollpos(k): the new position is k clamped to 0..max (k < 0 counts from the bottom, as documented);
+        a wheel event under a ScrollBar that the wrapped widget did not handle: one row up / down, clamped."""
+        if prev is None or len(since) != 1:
+            return
+        size, p, _top_h, total = now
+        if prev[0] != size or prev[3] != total or prev[4] != focus:
+            return
+        op = since[0]
+        rows = size[1]
+        pmax = max(0, total - rows)
+        if op["op"] == "setpos":
+            k = int(op["p"])
+            want = max(0, min(pmax, k if k >= 0 else total - rows + k + 1))
+            what = f"set_scrollpos({k})"
+        elif op["op"] == "wheel" and self.bar is not None and not op.get("_inner_handled"):
+            if total <= rows:
+                return
+            want = max(0, min(pmax, prev[1] + (-1 if op.get("up") else 1)))
+            what = f"wheel {'up' if op.get('up') else 'down'}"
+        else:
+            return
+        if p != want:
+            self.violate("C20.1", f"position-change-not-honoured:{op['op']}", f"step {i} size {size} content rows {total}: {what} from position {prev[1]}: expected {want}, Scrollable reports {p}")
+            return
+        self.res.probe("position_change_checked")
 
     def change_content(self, op: dict) -> None:
         import urwid  # noqa: PLC0415
